@@ -1,5 +1,7 @@
 /-
-Helper lemmas for Props/C13.lean: the back-ends' statement test is the specification's, JSON stability,
+Helper lemmas for Props/C13.lean: the implementation model's operator table computes the specification's comparisons
+(`opHolds_agrees`), the back-ends' statement test is the specification's, JSON storage (`select_round`: selecting from
+the JSON image of a store = the JSON image of the selection, for reference values without list/tuple),
 the model of `sorted()` on integer keys is the stable insertion sort, which is core's `List.mergeSort`.
 -/
 import FlexModel.Ldm.Query
@@ -7,6 +9,73 @@ namespace FlexModel.Ldm
 open Spec
 
 deriving instance DecidableEq for Except
+
+/-! ## the operator table of the implementation model = the specification's comparisons -/
+
+theorem isInfixL_iff (n : List Char) : ∀ h : List Char, isInfixL n h = true ↔ n <:+: h := by
+  intro h
+  induction h with
+  | nil => simp [isInfixL, List.infix_nil]
+  | cons c t ih =>
+    simp only [isInfixL, Bool.or_eq_true, List.isPrefixOf_iff_prefix, ih, List.infix_cons_iff]
+
+theorem occursIn_eq (n h : String) : occursIn n h = isInfixL n.toList h.toList := by
+  unfold occursIn
+  by_cases hh : n.toList <:+: h.toList
+  · simp [hh, (isInfixL_iff _ _).mpr hh]
+  · have : isInfixL n.toList h.toList = false := by
+      cases hx : isInfixL n.toList h.toList with
+      | false => rfl
+      | true => exact absurd ((isInfixL_iff _ _).mp hx) hh
+    simp [hh, this]
+
+theorem cmp_int (a b : Int) :
+    ((compare a b == .lt) = decide (a < b)) ∧ ((compare a b == .gt) = decide (b < a)) ∧
+    ((compare a b != .gt) = (decide (b < a) == false)) ∧ ((compare a b != .lt) = (decide (a < b) == false)) := by
+  simp only [compare, compareOfLessAndEq]
+  by_cases h1 : a < b
+  · have : ¬ b < a := by omega
+    simp [h1, this]
+  · by_cases h2 : a = b
+    · subst h2; simp
+    · have : b < a := by omega
+      simp [h1, h2, this]
+
+theorem cmp_str (a b : String) :
+    ((compare a b == .lt) = decide (a < b)) ∧ ((compare a b == .gt) = decide (b < a)) ∧
+    ((compare a b != .gt) = (decide (b < a) == false)) ∧ ((compare a b != .lt) = (decide (a < b) == false)) := by
+  have hc : compare a b = compareOfLessAndEq a b := rfl
+  rw [hc]
+  simp only [compareOfLessAndEq]
+  by_cases h1 : a < b
+  · have : ¬ b < a := String.lt_asymm h1
+    simp [h1, this]
+  · by_cases h2 : a = b
+    · subst h2; simp [String.lt_irrefl]
+    · have : b < a := by
+        apply String.not_le.mp
+        intro hle
+        exact h2 (String.le_antisymm hle (String.not_lt.mp h1))
+      simp [h1, h2, this]
+
+theorem int_beq (a b : Int) : (a == b) = decide (a = b) := by by_cases h : a = b <;> simp [h]
+theorem str_beq (a b : String) : (a == b) = decide (a = b) := by by_cases h : a = b <;> simp [h]
+
+theorem b2i_eq (x y : Bool) : ((if x then (1:Int) else 0) == (if y then (1:Int) else 0)) = decide ((if x then (1:Int) else 0) = (if y then (1:Int) else 0)) := by
+  cases x <;> cases y <;> rfl
+
+set_option maxHeartbeats 1600000 in
+theorem opHolds_agrees (op : CmpOp) (v ref : JVal) : opHolds op v ref = compoundHolds op v ref := by
+  have hi := cmp_int
+  have hs := cmp_str
+  cases v <;> cases ref <;> (try rfl) <;> cases op <;>
+    simp [opHolds, scalar?, compoundHolds, evalOp, sHolds, sEq, sLt, pyEq, compare3, JVal.num?, bind, Except.bind, pure,
+      Except.pure, throw, throwThe, MonadExceptOf.throw, pyContains, occursIn_eq, hi, hs, int_beq, str_beq]
+
+theorem typeSelected_eq (types : List Nat) (r : Record) : typeSelected types r = ofRequestedType types r := by
+  unfold typeSelected ofRequestedType
+  cases objType r.obj <;> simp
+
 
 theorem getPath_ok_iff (ks : List String) : ∀ (v x : JVal), getPath v ks = .ok x ↔ lookupPath v ks = some x := by
   induction ks with
@@ -29,14 +98,14 @@ theorem getPath_error_of_none (ks : List String) : ∀ (v : JVal), lookupPath v 
 
 /-- the dictionary back-end's statement test is the specification's -/
 theorem stmtMatches_eq_holds (obj : JVal) (s : Stmt) : stmtMatches obj s = holds s obj := by
-  unfold stmtMatches stmtValue holds opHolds
+  unfold stmtMatches stmtValue holds
   cases hl : lookupPath obj s.attr with
   | none =>
     obtain ⟨e, he⟩ := getPath_error_of_none _ _ hl
     simp [he, bind, Except.bind]
   | some v =>
     rw [(getPath_ok_iff _ _ _).mpr hl]
-    simp only [bind, Except.bind]
+    simp only [bind, Except.bind, opHolds_agrees, compoundHolds]
     cases evalOp s.op v s.ref <;> rfl
 
 theorem filterMatches_eq (f : Filter) (hwf : WFFilter f) (r : Record) : filterMatches f r = matchesFilter f r.obj := by
@@ -63,25 +132,25 @@ theorem dictSearch_eq_select (rows : List Record) (types : List Nat) (f : Option
     (hwf : ∀ g, f = some g → WFFilter g) : dictSearch rows types f = select rows types f := by
   unfold dictSearch select typeSelect
   cases f with
-  | none => apply List.filter_congr; intro r _; simp [selected]
+  | none => apply List.filter_congr; intro r _; simp [selected, typeSelected_eq]
   | some g =>
     simp only
     rw [List.filter_filter]
     apply List.filter_congr
     intro r _
-    simp only [selected, filterMatches_eq g (hwf g rfl), Bool.and_comm]
+    simp only [selected, filterMatches_eq g (hwf g rfl), Bool.and_comm, typeSelected_eq]
 
 theorem tinySearch_eq_select (rows : List Record) (types : List Nat) (f : Option Filter)
     (hwf : ∀ g, f = some g → WFFilter g) : tinySearch rows types f = select (rows.map Record.round) types f := by
   unfold tinySearch select typeSelect
   cases f with
-  | none => apply List.filter_congr; intro r _; simp [selected]
+  | none => apply List.filter_congr; intro r _; simp [selected, typeSelected_eq]
   | some g =>
     simp only
     rw [List.filter_filter]
     apply List.filter_congr
     intro r _
-    simp only [selected, tinyMatches_eq g (hwf g rfl)]
+    simp only [selected, tinyMatches_eq g (hwf g rfl), typeSelected_eq]
 
 mutual
 /-- no tuple anywhere: the value survives JSON storage unchanged -/
@@ -131,6 +200,136 @@ theorem round_id_of_stable (rows : List Record) (h : ∀ r ∈ rows, noTuple r.o
     cases r
     simp only [Record.round] at hr ⊢
     rw [hr]
+
+/-! ## JSON storage -/
+
+mutual
+/-- no list or tuple anywhere in the value (reference values of the C13-KF3 region excluded) -/
+def noSeq : JVal → Bool
+  | .list _ => false
+  | .tuple _ => false
+  | .dict kvs => noSeqD kvs
+  | _ => true
+def noSeqD : JDict → Bool
+  | .nil => true
+  | .cons _ v t => noSeq v && noSeqD t
+end
+
+theorem noSeq_get : ∀ (kvs : JDict) (k : String) (w : JVal), noSeqD kvs = true → kvs.get? k = some w → noSeq w = true
+  | .nil, _, _, _, hg => by simp [JDict.get?] at hg
+  | .cons k' v t, k, w, h, hg => by
+    simp only [noSeqD, Bool.and_eq_true] at h
+    simp only [JDict.get?] at hg
+    split at hg
+    · injection hg with hg; rw [← hg]; exact h.1
+    · exact noSeq_get t k w h.2 hg
+
+theorem roundD_length : ∀ kvs : JDict, (jsonRoundD kvs).length = kvs.length
+  | .nil => rfl
+  | .cons _ _ t => by simp [jsonRoundD, JDict.length, roundD_length t]
+
+theorem roundD_get : ∀ (kvs : JDict) (k : String), (jsonRoundD kvs).get? k = (kvs.get? k).map jsonRound
+  | .nil, _ => rfl
+  | .cons k' v t, k => by
+    simp only [jsonRoundD, JDict.get?]
+    split
+    · rfl
+    · exact roundD_get t k
+
+theorem roundD_keys : ∀ kvs : JDict, (jsonRoundD kvs).keys = kvs.keys
+  | .nil => rfl
+  | .cons _ _ t => by simp [jsonRoundD, JDict.keys, roundD_keys t]
+
+mutual
+theorem pyEq_round : ∀ (v ref : JVal), noSeq ref = true → pyEq (jsonRound v) ref = pyEq v ref
+  | .null, _, _ => rfl
+  | .bool _, _, _ => rfl
+  | .int _, _, _ => rfl
+  | .str _, _, _ => rfl
+  | .bytes _, _, _ => rfl
+  | .list xs, ref, h => by cases ref <;> simp_all [jsonRound, pyEq, noSeq]
+  | .tuple xs, ref, h => by cases ref <;> simp_all [jsonRound, pyEq, noSeq]
+  | .dict kvs, ref, h => by
+    cases ref with
+    | dict kvs2 =>
+      simp only [noSeq] at h
+      simp only [jsonRound, pyEq, roundD_length, dictSub_round kvs kvs2 h]
+    | _ => simp [jsonRound, pyEq]
+theorem dictSub_round : ∀ (a b : JDict), noSeqD b = true → dictSub (jsonRoundD a) b = dictSub a b
+  | .nil, _, _ => rfl
+  | .cons k v t, b, h => by
+    simp only [jsonRoundD, dictSub, dictSub_round t b h]
+    cases hg : b.get? k with
+    | none => rfl
+    | some w => simp only [pyEq_round v w (noSeq_get b k w h hg)]
+end
+
+theorem compare3_round (v ref : JVal) (h : noSeq ref = true) : compare3 (jsonRound v) ref = compare3 v ref := by
+  cases v <;> cases ref <;> simp_all [jsonRound, compare3, noSeq]
+
+theorem anyEq_round : ∀ (xs : JList) (ref : JVal), noSeq ref = true →
+    (jsonRoundL xs).toList.any (fun x => pyEq x ref) = xs.toList.any (fun x => pyEq x ref)
+  | .nil, _, _ => rfl
+  | .cons x t, ref, h => by
+    simp only [jsonRoundL, JList.toList, List.any_cons, pyEq_round x ref h, anyEq_round t ref h]
+
+theorem pyContains_round (v ref : JVal) (h : noSeq ref = true) : pyContains (jsonRound v) ref = pyContains v ref := by
+  cases v <;> simp [jsonRound, pyContains, anyEq_round _ ref h]
+
+theorem evalOp_round (op : CmpOp) (v ref : JVal) (h : noSeq ref = true) : evalOp op (jsonRound v) ref = evalOp op v ref := by
+  cases op <;> simp only [evalOp, pyEq_round v ref h, compare3_round v ref h, pyContains_round v ref h]
+
+theorem lookupPath_round : ∀ (p : List String) (o : JVal), lookupPath (jsonRound o) p = (lookupPath o p).map jsonRound
+  | [], o => by simp [lookupPath]
+  | k :: ks, o => by
+    cases o with
+    | dict kvs =>
+      simp only [jsonRound, lookupPath, roundD_get]
+      cases hg : kvs.get? k with
+      | none => rfl
+      | some x => simp only [Option.map_some]; exact lookupPath_round ks x
+    | _ => simp [jsonRound, lookupPath]
+
+theorem holds_round (s : Stmt) (o : JVal) (h : noSeq s.ref = true) : holds s (jsonRound o) = holds s o := by
+  unfold holds
+  rw [lookupPath_round]
+  cases lookupPath o s.attr with
+  | none => rfl
+  | some v => simp only [Option.map_some, opHolds_agrees, compoundHolds, evalOp_round s.op v s.ref h]
+
+/-- the reference values of a filter contain no list / tuple (outside the C13-KF3 region) -/
+def refsNoSeq (f : Filter) : Prop := noSeq f.s1.ref = true ∧ ∀ s2, f.s2 = some s2 → noSeq s2.ref = true
+
+theorem matchesFilter_round (f : Filter) (o : JVal) (h : refsNoSeq f) : matchesFilter f (jsonRound o) = matchesFilter f o := by
+  unfold matchesFilter
+  cases h2 : f.s2 with
+  | none => simp only [holds_round f.s1 o h.1]
+  | some s2 =>
+    have := h.2 s2 h2
+    cases f.lop with
+    | none => rfl
+    | some l => cases l <;> simp only [holds_round f.s1 o h.1, holds_round s2 o this]
+
+theorem objType_round (o : JVal) : objType (jsonRound o) = objType o := by
+  cases o <;> simp [jsonRound, objType, roundD_keys]
+
+theorem selected_round (types : List Nat) (f : Option Filter) (hf : ∀ g, f = some g → refsNoSeq g) (r : Record) :
+    selected types f r.round = selected types f r := by
+  unfold selected ofRequestedType Record.round
+  simp only [objType_round]
+  cases f with
+  | none => rfl
+  | some g => simp only [matchesFilter_round g r.obj (hf g rfl)]
+
+/-- selecting from the JSON image of a store = the JSON image of the selection -/
+theorem select_round (rows : List Record) (types : List Nat) (f : Option Filter) (hf : ∀ g, f = some g → refsNoSeq g) :
+    select (rows.map Record.round) types f = (select rows types f).map Record.round := by
+  unfold select
+  rw [List.filter_map]
+  congr 1
+  apply List.filter_congr
+  intro r _
+  exact selected_round types f hf r
 
 /-- pure form of `insAsc` on integer keys -/
 def insL {α : Type} (f : α → Int) (x : α) : List α → List α
@@ -561,5 +760,224 @@ theorem orderResults_eq (κ : OrderKey → Record → Int) (keys : List OrderKey
     (h : ∀ r ∈ rows, ∀ k ∈ keys, orderKeyOf r k = .ok (.int (κ k r))) :
     orderResults rows keys = .ok (stableSort (lexLe (keys.map (effKey κ))) rows) := by
   rw [orderResults_int κ keys rows h, lsdSort_eq]
+
+/-! ## order keys of any one comparable scalar class: integer scales -/
+
+/-- `f` is an integer scale of the key values `v` on the list `L`: Python's `<` between the keys of two elements of `L`
+is defined and is `<` between their scale values -/
+def Scale {α : Type} (L : List α) (v : α → JVal) (f : α → Int) : Prop :=
+  ∀ a ∈ L, ∀ b ∈ L, pyLt (v a) (v b) = .ok (decide (f a < f b))
+
+theorem Scale.of_subset {α : Type} {L L' : List α} {v : α → JVal} {f : α → Int} (h : Scale L v f) (hs : ∀ a ∈ L', a ∈ L) :
+    Scale L' v f := fun a ha b hb => h a (hs a ha) b (hs b hb)
+
+def keyedV {α : Type} (v : α → JVal) (y : α) : α × JVal := (y, v y)
+
+theorem mem_insL {α : Type} (f : α → Int) (x z : α) : ∀ ys : List α, z ∈ insL f x ys ↔ z = x ∨ z ∈ ys := by
+  intro ys
+  induction ys with
+  | nil => simp [insL]
+  | cons y ys ih =>
+    simp only [insL]
+    split
+    · simp
+    · simp only [List.mem_cons, ih]
+      constructor
+      · rintro (h | h | h) <;> simp [h]
+      · rintro (h | h | h) <;> simp [h]
+
+theorem insAsc_scale {α : Type} (L : List α) (v : α → JVal) (f : α → Int) (hs : Scale L v f) (x : α) (hx : x ∈ L) :
+    ∀ ys : List α, (∀ y ∈ ys, y ∈ L) → insAsc (keyedV v x) (ys.map (keyedV v)) = .ok ((insL f x ys).map (keyedV v)) := by
+  intro ys
+  induction ys with
+  | nil => intro _; rfl
+  | cons y ys ih =>
+    intro hys
+    have hy : y ∈ L := hys y (by simp)
+    simp only [List.map_cons, insAsc, keyedV, hs x hx y hy, bind, Except.bind, insL]
+    by_cases h : f x < f y
+    · simp [h, pure, Except.pure, keyedV]
+    · simp only [h, decide_false, Bool.false_eq_true, if_false]
+      have := ih (fun z hz => hys z (by simp [hz]))
+      simp only [keyedV] at this
+      rw [this]
+      simp [pure, Except.pure, keyedV]
+
+theorem insDesc_scale {α : Type} (L : List α) (v : α → JVal) (f : α → Int) (hs : Scale L v f) (x : α) (hx : x ∈ L) :
+    ∀ ys : List α, (∀ y ∈ ys, y ∈ L) →
+      insDesc (keyedV v x) (ys.map (keyedV v)) = .ok ((insL (fun r => - f r) x ys).map (keyedV v)) := by
+  intro ys
+  induction ys with
+  | nil => intro _; rfl
+  | cons y ys ih =>
+    intro hys
+    have hy : y ∈ L := hys y (by simp)
+    simp only [List.map_cons, insDesc, keyedV, hs y hy x hx, bind, Except.bind, insL]
+    by_cases h : f y < f x
+    · have h' : - f x < - f y := by omega
+      simp [h, h', pure, Except.pure, keyedV]
+    · have h' : ¬ (- f x < - f y) := by omega
+      simp only [h, h', decide_false, Bool.false_eq_true, if_false]
+      have := ih (fun z hz => hys z (by simp [hz]))
+      simp only [keyedV] at this
+      rw [this]
+      simp [pure, Except.pure, keyedV]
+
+theorem pySorted_scale_aux {α : Type} (L : List α) (v : α → JVal) (f : α → Int) (hs : Scale L v f) (rev : Bool) :
+    ∀ (xs : List α), (∀ x ∈ xs, x ∈ L) → ∀ acc : List α, (∀ a ∈ acc, a ∈ L) →
+    (xs.map (keyedV v)).foldlM (fun acc x => if rev then insDesc x acc else insAsc x acc) (acc.map (keyedV v))
+      = .ok ((xs.foldl (fun acc x => insL (passKey f rev) x acc) acc).map (keyedV v)) := by
+  intro xs
+  induction xs with
+  | nil => intro _ acc _; rfl
+  | cons x xs ih =>
+    intro hxs acc hacc
+    have hx : x ∈ L := hxs x (by simp)
+    have hxs' : ∀ z ∈ xs, z ∈ L := fun z hz => hxs z (by simp [hz])
+    simp only [List.map_cons, List.foldlM_cons, List.foldl_cons]
+    cases rev with
+    | true =>
+      simp only [if_true, insDesc_scale L v f hs x hx acc hacc, bind, Except.bind, passKey]
+      exact ih hxs' _ (fun a ha => by rcases (mem_insL _ x a acc).mp ha with h | h; exact h ▸ hx; exact hacc a h)
+    | false =>
+      simp only [Bool.false_eq_true, if_false, insAsc_scale L v f hs x hx acc hacc, bind, Except.bind, passKey]
+      exact ih hxs' _ (fun a ha => by rcases (mem_insL _ x a acc).mp ha with h | h; exact h ▸ hx; exact hacc a h)
+
+theorem pySorted_scale {α : Type} (v : α → JVal) (f : α → Int) (rev : Bool) (xs : List α) (hs : Scale xs v f) :
+    pySorted (xs.map (keyedV v)) rev = .ok ((sortL (passKey f rev) xs).map (keyedV v)) := by
+  have := pySorted_scale_aux xs v f hs rev xs (fun _ h => h) [] (by simp)
+  simpa [pySorted, sortL] using this
+
+/-- one pass of `order_search_results` on keys that have an integer scale -/
+theorem sortByKey_scale (κ : OrderKey → Record → Int) (k : OrderKey) (rows : List Record) (v : Record → JVal)
+    (h : ∀ r ∈ rows, orderKeyOf r k = .ok (v r)) (hs : Scale rows v (κ k)) :
+    sortByKey rows k = .ok (sortL (effKey κ k) rows) := by
+  unfold sortByKey
+  rw [mapM_ok (fun r => do let x ← orderKeyOf r k; pure (r, x)) (keyedV v) rows
+    (by intro r hr; simp [h r hr, bind, Except.bind, pure, Except.pure, keyedV])]
+  simp only [bind, Except.bind, pySorted_scale v (κ k) _ rows hs, pure, Except.pure]
+  congr 1
+  have : passKey (κ k) (k.dir == Dir.desc) = effKey κ k := by
+    unfold passKey effKey
+    cases k.dir <;> rfl
+  rw [this, List.map_map]
+  have : (fun (x : Record × JVal) => x.1) ∘ keyedV v = id := by funext r; rfl
+  rw [this, List.map_id]
+
+/-- the order keys `ks` have integer scales `κ` on `rows` -/
+def Scaled (κ : OrderKey → Record → Int) (ks : List OrderKey) (rows : List Record) : Prop :=
+  ∀ k ∈ ks, ∃ v : Record → JVal, (∀ r ∈ rows, orderKeyOf r k = .ok (v r)) ∧ Scale rows v (κ k)
+
+theorem Scaled.of_mem_iff {κ : OrderKey → Record → Int} {ks : List OrderKey} {rows rows' : List Record}
+    (h : Scaled κ ks rows) (hm : ∀ r, r ∈ rows' → r ∈ rows) : Scaled κ ks rows' := by
+  intro k hk
+  obtain ⟨v, h1, h2⟩ := h k hk
+  exact ⟨v, fun r hr => h1 r (hm r hr), h2.of_subset hm⟩
+
+theorem foldlM_sortByKey_scale (κ : OrderKey → Record → Int) (ks : List OrderKey) : ∀ (rows : List Record),
+    Scaled κ ks rows →
+    ks.foldlM sortByKey rows = .ok (ks.foldl (fun acc k => stableSort (leOf (effKey κ k)) acc) rows) := by
+  induction ks with
+  | nil => intro rows _; rfl
+  | cons k ks ih =>
+    intro rows h
+    obtain ⟨v, h1, h2⟩ := h k (by simp)
+    simp only [List.foldlM_cons, List.foldl_cons]
+    rw [sortByKey_scale κ k rows v h1 h2, sortL_eq_stableSort]
+    simp only [bind, Except.bind]
+    apply ih
+    have hsub : Scaled κ ks rows := fun k' hk' => h k' (by simp [hk'])
+    exact hsub.of_mem_iff (fun r hr => (stableSort_perm _ rows).mem_iff.mp hr)
+
+/-- `order_search_results` on keys with integer scales is the stable lexicographic sort by the scales -/
+theorem orderResults_scale (κ : OrderKey → Record → Int) (keys : List OrderKey) (rows : List Record)
+    (h : Scaled κ keys rows) :
+    orderResults rows keys = .ok (stableSort (lexLe (keys.map (effKey κ))) rows) := by
+  have : Scaled κ keys.reverse rows := fun k hk => h k (List.mem_reverse.mp hk)
+  have e := foldlM_sortByKey_scale κ keys.reverse rows this
+  unfold orderResults
+  rw [e]
+  have := lsdSort_eq κ keys rows
+  unfold lsdSort at this
+  rw [this]
+
+/-! ### scales exist for integer-valued and for text-valued keys -/
+
+theorem scale_int {α : Type} (L : List α) (g : α → Int) : Scale L (fun a => .int (g a)) g :=
+  fun a _ b _ => pyLt_int (g a) (g b)
+
+theorem pyLt_str (s t : String) : pyLt (.str s) (.str t) = .ok (decide (s < t)) := by
+  simp only [pyLt, compare3, bind, Except.bind, pure, Except.pure, (cmp_str s t).1]
+
+/-- rank of a text among the texts of `S`: how many of them are smaller -/
+def rankIn (S : List String) (s : String) : Int := ((S.filter (fun x => decide (x < s))).length : Int)
+
+theorem filter_length_le {α : Type} (p q : α → Bool) (l : List α) (h : ∀ a ∈ l, p a = true → q a = true) :
+    (l.filter p).length ≤ (l.filter q).length := by
+  induction l with
+  | nil => simp
+  | cons a t ih =>
+    have iht := ih (fun b hb => h b (by simp [hb]))
+    simp only [List.filter_cons]
+    by_cases hp : p a = true
+    · have hq := h a (by simp) hp
+      simp [hp, hq]; omega
+    · by_cases hq : q a = true
+      · simp [hp, hq]; omega
+      · simp [hp, hq]; omega
+
+theorem filter_length_lt {α : Type} (p q : α → Bool) (l : List α) (h : ∀ a ∈ l, p a = true → q a = true)
+    (x : α) (hx : x ∈ l) (hqx : q x = true) (hpx : p x = false) : (l.filter p).length < (l.filter q).length := by
+  induction l with
+  | nil => simp at hx
+  | cons a t ih =>
+    have hle := filter_length_le p q t (fun b hb => h b (by simp [hb]))
+    simp only [List.filter_cons]
+    rcases List.mem_cons.mp hx with e | e
+    · subst e
+      simp [hqx, hpx]; omega
+    · have iht := ih (fun b hb => h b (by simp [hb])) e
+      by_cases hp : p a = true
+      · have hq := h a (by simp) hp
+        simp [hp, hq]; omega
+      · by_cases hq : q a = true
+        · simp [hp, hq]; omega
+        · simp [hp, hq]; omega
+
+theorem rank_lt_iff (S : List String) (s t : String) (hs : s ∈ S) (ht : t ∈ S) : rankIn S s < rankIn S t ↔ s < t := by
+  unfold rankIn
+  constructor
+  · intro h
+    apply Classical.byContradiction
+    intro hn
+    have hts : t ≤ s := String.not_lt.mp hn
+    have := filter_length_le (fun x => decide (x < t)) (fun x => decide (x < s)) S (by
+      intro a _ ha
+      simp only [decide_eq_true_eq] at ha ⊢
+      rcases Classical.em (t = s) with e | e
+      · rw [← e]; exact ha
+      · have : t < s := by
+          apply String.not_le.mp
+          intro hle
+          exact e (String.le_antisymm hts hle)
+        exact String.lt_trans ha this)
+    omega
+  · intro h
+    have := filter_length_lt (fun x => decide (x < s)) (fun x => decide (x < t)) S (by
+      intro a _ ha
+      simp only [decide_eq_true_eq] at ha ⊢
+      exact String.lt_trans ha h) s hs (by simpa using h) (by simp [String.lt_irrefl])
+    omega
+
+theorem scale_str {α : Type} (L : List α) (σ : α → String) :
+    Scale L (fun a => .str (σ a)) (fun a => rankIn (L.map σ) (σ a)) := by
+  intro a ha b hb
+  rw [pyLt_str]
+  congr 1
+  have h := rank_lt_iff (L.map σ) (σ a) (σ b) (List.mem_map_of_mem ha) (List.mem_map_of_mem hb)
+  by_cases hl : σ a < σ b
+  · simp [hl, h.mpr hl]
+  · have : ¬ rankIn (L.map σ) (σ a) < rankIn (L.map σ) (σ b) := fun hh => hl (h.mp hh)
+    simp [hl, this]
 
 end FlexModel.Ldm
